@@ -61,6 +61,13 @@ def verify_function(reg: Registry, session, c: Contract) -> FunctionReport:
         obs, npaths = explore(session, label, run_path, c.max_paths)
         rep.obligations = obs
         rep.paths = npaths
+        if c.derived:
+            def run_derived(ctx):
+                interp.ctx = ctx
+                _run_derived(reg, interp, c, fref)
+            obs2, n2 = explore(session, label, run_derived, c.max_paths)
+            rep.obligations = obs + obs2
+            rep.paths += n2
     except (Unsupported, TargetNotFound) as e:
         rep.error = f"{type(e).__name__}: {e}"
     except Exception:
@@ -129,6 +136,7 @@ def _run_one(reg: Registry, I: Interp, c: Contract, fref: FuncRef, rep: Function
         post_env[nm] = env[nm]          # parameters keep their entry binding (object identity)
     post_env["result"] = result
     pfr = reg.contract_frame(I, fref.module, c.short, post_env, old_env)
+    pfr.locals["__frame__"] = fr          # ghost definitions may refer to the code's locals
     if c.post_setup:
         c.post_setup(I, pfr)
     if outcome is None:
@@ -175,6 +183,39 @@ def _run_one(reg: Registry, I: Interp, c: Contract, fref: FuncRef, rep: Function
             reg.prove_clause(I, f"raise-allowed:{exc}", v, "raises", ofr)
         else:
             reg.prove_clause(I, f"no-raise:{exc}", False, "raises", ofr)
+
+
+def _run_derived(reg: Registry, I: Interp, c: Contract, fref: FuncRef):
+    """Derived clauses: consequences of requires + (code-verified) ensures alone.  Proved in a
+    clean context: symbolic parameters, an arbitrary result, the requires and the ensures as
+    hypotheses -- no code terms.  Sound because every hypothesis is a requires or a clause that
+    the code has been verified against."""
+    ctx = I.ctx
+    env: dict = {}
+    for nm, ty in c.params.items():
+        env[nm] = reg.make_value(I, ty, nm, env)
+    cfr = reg.contract_frame(I, fref.module, c.short, dict(env), None)
+    if c.setup:
+        c.setup(I, cfr)
+    env = dict(cfr.locals)
+    old_env = reg.snapshot(env)
+    if c.modifies:
+        raise Unsupported("derived clauses for a contract with a modifies frame")
+    result = reg.make_value(I, c.returns, "result", env) if c.returns is not None else None
+    env["result"] = result
+    pfr = reg.contract_frame(I, fref.module, c.short, env, old_env)
+    if c.post_setup:
+        c.post_setup(I, pfr)
+    for src in c.requires:
+        reg.assume_clause(I, reg.eval_clause(I, src, pfr))
+    for src in c.ensures:
+        reg.assume_clause(I, reg.eval_clause(I, src, pfr))
+    if ctx._check() == z3.unsat:
+        ctx.obligations.append(Obligation(f"{ctx.func_label}/derived-hypotheses-satisfiable", "vacuity",
+                                          "failed", note="requires + ensures are contradictory"))
+        raise PathEnd()
+    for k, src in enumerate(c.derived):
+        reg.prove_clause(I, f"derived#{k}", reg.eval_clause(I, src, pfr), "derived", pfr)
 
 
 def ghost_env_filter(ghost_env, names):
